@@ -30,6 +30,37 @@ fn real_main(args: &[String]) -> i32 {
             println!("{} corpus files written to {}", n, args[2]);
             0
         }
+        // decodes a libFuzzer input of fz_hist into its history (case JSON on stdout)
+        // one probe of a scenario step, alone in this process (limits set by the caller)
+        "probe" if args.len() >= 3 && args[1] == "huge-length" => {
+            cfbverif::util::install_panic_hook();
+            match cfbverif::props::scenarios::huge_length_probe(args[2].parse().unwrap_or(usize::MAX)) {
+                Ok(s) => {
+                    println!("PROBE-OK {}", s);
+                    0
+                }
+                Err(f) => {
+                    println!("PROBE-FAIL {} :: {}", f.key, f.detail);
+                    1
+                }
+            }
+        }
+        "fz-names" => {
+            println!("{:?}", cfbverif::fuzzdec::names_outside_alphabet().iter().map(|c| format!("U+{:04X}", *c as u32)).collect::<Vec<_>>());
+            0
+        }
+        "fz-decode" if args.len() >= 3 => {
+            let data = std::fs::read(&args[2]).unwrap_or_default();
+            let t0 = std::time::Instant::now();
+            match cfbverif::fuzzsup::hist_case(&args[1], &data) {
+                Some(c) => {
+                    println!("{}", serde_json::to_string(&c).unwrap_or_default());
+                    eprintln!("decoded {} ops in {:?}", c.ops.len(), t0.elapsed());
+                    0
+                }
+                None => 2,
+            }
+        }
         "list" => {
             for d in props::all() {
                 println!("{}", d.id);
